@@ -194,6 +194,8 @@ def lift(repo, spec):
         seg, n = shim_calls(seg, name)
         if n < 1:
             raise LiftError("environment call self.%s(..) not found: source changed shape" % name)
+    for name in spec.get("await_calls_opt", []):
+        seg, n = shim_calls(seg, name)
     for rw in spec.get("rewrites", []):
         rx, rep = rw[0], rw[1]
         mn = rw[2] if len(rw) > 2 else 1
